@@ -22,6 +22,7 @@ type c13case struct {
 }
 
 var c13keys [][3][]byte // d, x, y
+var c13idBuf, c13pxBuf, c13pyBuf []byte
 
 func c13init() {
 	if c13keys != nil {
@@ -36,8 +37,31 @@ func c13init() {
 func c13eval(r *vx.R, c c13case) {
 	c13init()
 	r.Eval(1)
-	k := c13keys[c.Key]
-	id := vx.Fill(fmt.Sprintf("id%d", c.IDLen%7), c.IDLen)
+	k0 := c13keys[c.Key]
+	// the id and the key coordinates are handed over in buffers that are *reused* from case to case (refilled with the next
+	// user's data): whatever the library remembers must not be keyed on the identity of the caller's buffers
+	if c13idBuf == nil {
+		c13idBuf = make([]byte, 70000)
+		c13pxBuf = make([]byte, 32)
+		c13pyBuf = make([]byte, 32)
+	}
+	id := c13idBuf[:c.IDLen:c.IDLen]
+	{
+		// the previous user of these buffers: another key and another id of the same length
+		other := c13keys[1-c.Key]
+		copy(id, vx.Fill("id-previous-user", c.IDLen))
+		copy(c13pxBuf, other[1])
+		copy(c13pyBuf, other[2])
+		vx.Try(func() {
+			sm2.ZA(id, c13pxBuf, c13pyBuf)
+			sm2.Verify(id, c13pxBuf, c13pyBuf, []byte("previous"), other[1], other[2])
+			sm2.Sign(id, c13pxBuf, c13pyBuf, stream(b32(bigOne)), other[0], []byte("previous"))
+		})
+	}
+	copy(id, vx.Fill(fmt.Sprintf("id%d", c.IDLen%7), c.IDLen))
+	copy(c13pxBuf, k0[1])
+	copy(c13pyBuf, k0[2])
+	k := [3][]byte{k0[0], c13pxBuf, c13pyBuf}
 	switch c.Fn {
 	case "za":
 		keep := append([]byte{}, id...)
